@@ -183,9 +183,56 @@ type cmapCase struct {
 	strKind string
 }
 
-func buildCMapCase(c *fw.Ctx, ns string, i int, forceSet int) *cmapCase {
+// addBOMCodes makes sure the map has the codes whose bytes spell a UTF-16
+// byte-order mark (FE FF / FF FE), so that a code string can begin with them.
+func addBOMCodes(g *genMap, r *rand.Rand) {
+	var codes [][]byte
+	switch len(g.m.Spaces[0].Lo) {
+	case 1:
+		codes = [][]byte{{0xFE}, {0xFF}}
+	case 2:
+		codes = [][]byte{{0xFE, 0xFF}, {0xFF, 0xFE}}
+	default:
+		return
+	}
+	for _, code := range codes {
+		have := false
+		for _, e := range g.m.Entries {
+			if bytes.Equal(e.Code, code) {
+				have = true
+			}
+		}
+		if !have {
+			t, k := randText(r)
+			g.m.Entries = append(g.m.Entries, cmapw.Entry{Code: code, Text: t})
+			g.kinds[k]++
+		}
+	}
+}
+
+// bomPrefix returns a code string (and its text) that starts with the bytes FE FF or FF FE.
+func bomPrefix(g *genMap, r *rand.Rand) ([]byte, string) {
+	idx := map[string]string{}
+	for _, e := range g.m.Entries {
+		idx[string(e.Code)] = e.Text
+	}
+	first, second := []byte{0xFE}, []byte{0xFF}
+	if r.Intn(2) == 0 {
+		first, second = second, first
+	}
+	if len(g.m.Spaces[0].Lo) == 2 {
+		c := append(append([]byte{}, first...), second...)
+		return c, idx[string(c)]
+	}
+	return append(append([]byte{}, first...), second...), idx[string(first)] + idx[string(second)]
+}
+
+func buildCMapCase(c *fw.Ctx, ns string, i int, forceSet int, bomCodes ...bool) *cmapCase {
 	cc := &cmapCase{}
 	cc.g = genCMap(c.Rand(ns, i, "map"), forceSet)
+	if len(bomCodes) > 0 && bomCodes[0] {
+		addBOMCodes(cc.g, c.Rand(ns, i, "bomcodes"))
+	}
 	cc.pol = randPolicy(c.Rand(ns, i, "policy"))
 	cc.prog, cc.st = cmapw.Render(cc.g.m, cc.pol, c.Rand(ns, i, "render"))
 	cc.stream, cc.strKind = mkStream(cc.prog, c.Rand(ns, i, "stream"))
@@ -708,7 +755,7 @@ func runPrecedence(c *fw.Ctx) {
 			} else if r.Intn(3) == 0 {
 				set = 4 // w1-two-ranges
 			}
-			cc = buildCMapCase(c, "prec/"+fs.String(), j.k, set)
+			cc = buildCMapCase(c, "prec/"+fs.String(), j.k, set, true)
 			fs.toUnicode = cc.stream
 			fs.tuIndirect = r.Intn(2) == 0
 		} else if fs.kind == "Type0" {
@@ -743,17 +790,13 @@ func runPrecedence(c *fw.Ctx) {
 						differs++
 					}
 				}
-				if fs.kind == "Type0" && r.Intn(2) == 0 { // a code string that starts like a UTF-16 BOM is still a code string
-					for _, e := range cc.g.m.Entries {
-						if e.Code[0] == 0xFE && e.Code[1] == 0xFF || e.Code[0] == 0xFF && e.Code[1] == 0xFE {
-							data = append(append([]byte{}, e.Code...), data...)
-							w := want.String()
-							want.Reset()
-							want.WriteString(e.Text + w)
-							c.Seen("prec_feature", "code string beginning FEFF/FFFE with ToUnicode present")
-							break
-						}
-					}
+				if r.Intn(2) == 0 { // a code string that starts like a UTF-16 BOM is still a code string
+					pc, pt := bomPrefix(cc.g, r)
+					data = append(pc, data...)
+					w := want.String()
+					want.Reset()
+					want.WriteString(pt + w)
+					c.Seen("prec_feature", "code string beginning FE FF / FF FE with ToUnicode present")
 				}
 				c.Case("prec|"+fs.String()+"|"+string(cc.prog), differs > 0 || fs.kind == "Type0")
 				got := f.DecodeString(data)
@@ -958,9 +1001,13 @@ func runE2E(c *fw.Ctx) {
 			if kind == "Type0" {
 				set = []int{1, 1, 6, 7}[r.Intn(4)]
 			}
-			cc := buildCMapCase(c, "e2e", i, set)
+			cc := buildCMapCase(c, "e2e", i, set, set <= 1)
 			fs.toUnicode, fs.tuIndirect = cc.stream, r.Intn(2) == 0
 			prog = cc.prog
+			if set <= 1 && r.Intn(3) == 0 {
+				data, want = bomPrefix(cc.g, r)
+				c.Seen("e2e_feature", "shown string beginning FE FF / FF FE with ToUnicode present")
+			}
 			for k := 1 + r.Intn(30); k > 0; k-- {
 				e := cc.g.m.Entries[r.Intn(len(cc.g.m.Entries))]
 				data = append(data, e.Code...)
